@@ -47,7 +47,6 @@ func (o outcome) String() string {
 
 // runSchema runs text through ReadFile and Generate (withValidate: also File.Validate on its own, between the two).
 func runSchema(text string, withValidate bool) outcome {
-	type msg struct{ o outcome }
 	done := make(chan outcome, 1)
 	var stage atomic.Value
 	stage.Store("ReadFile")
